@@ -391,9 +391,12 @@ where
         A: GLWEInfos,
         B: BDDKeyInfos,
     {
+        // Every take is re-aligned to DEFAULTALIGN and Scratch::split_mut hands each thread a re-aligned region:
+        // each level (and hence the per-thread total) is rounded up to the alignment.
         self.circuit_bootstrapping_execute_tmp_bytes(block_size, extension_factor, res_infos, &bdd_infos.cbt_infos())
-            + GGSW::bytes_of_from_infos(res_infos)
-            + LWE::bytes_of_from_infos(bits_infos)
+            .next_multiple_of(poulpy_hal::DEFAULTALIGN)
+            + GGSW::bytes_of_from_infos(res_infos).next_multiple_of(poulpy_hal::DEFAULTALIGN)
+            + LWE::bytes_of_from_infos(bits_infos).next_multiple_of(poulpy_hal::DEFAULTALIGN)
     }
 
     fn fhe_uint_prepare_custom_multi_thread<DM, DB, DK, K, T: UnsignedInteger>(
